@@ -1,7 +1,7 @@
 """Sidecar contracts for sigpyproc (keyed by file::qualname; loops by source-order ordinal + variable)."""
 from pvc.contract import Registry
 
-MODULES = ["lemmas", "kernels_bits", "bits", "kernels_stream", "kernels_moments", "race", "fileio", "readers", "base", "writer", "base_writers", "readblock", "kernels_roll", "moments", "fold", "folded", "pfits", "stats_filters", "rfi", "sigproc_codec"]
+MODULES = ["lemmas", "kernels_bits", "bits", "kernels_stream", "kernels_moments", "race", "fileio", "readers", "base", "writer", "base_writers", "readblock", "kernels_roll", "moments", "fold", "folded", "pfits", "stats_filters", "rfi", "sigproc_codec", "fft_lengths", "matched", "zscore"]
 
 
 def load_all():
@@ -15,10 +15,12 @@ def load_all():
 
 def configure(v):
     v.inline_classes |= {"sigpyproc/timeseries.py::TimeSeries", "sigpyproc/io/fileio.py::FileWriter",
-                         "sigpyproc/io/bits.py::BitsInfo", "sigpyproc/block.py::FilterbankBlock"}
+                         "sigpyproc/io/bits.py::BitsInfo", "sigpyproc/block.py::FilterbankBlock",
+                         "sigpyproc/fourierseries.py::FourierSeries"}
     v.inline_ok |= {"sigpyproc/io/fileio.py::FileBase.__init__", "sigpyproc/io/fileio.py::FileWriter.write"}
     """Functions that are executed symbolically at the call site (tiny, pure, real bodies)."""
     v.inline_ok |= {"sigpyproc/core/kernels.py::update_moments", "sigpyproc/core/kernels.py::update_moments_basic",
                     "sigpyproc/io/fileio.py::FileBase._close_current",
                     "sigpyproc/timeseries.py::TimeSeries._check_input",
-                    "sigpyproc/block.py::BaseBlock.__init__", "sigpyproc/block.py::BaseBlock._check_input"}
+                    "sigpyproc/block.py::BaseBlock.__init__", "sigpyproc/block.py::BaseBlock._check_input",
+                    "sigpyproc/fourierseries.py::FourierSeries._check_input"}
